@@ -168,16 +168,20 @@ pub struct RunOutput<R> {
 //
 // A task that spins without ever returning `Pending` (or a set of tasks that keep waking each other while no
 // simulated time can pass) never hands control back to the simulator: the run would hang in real time. A watchdog
-// OS thread looks at two wall-clock stamps - start of the task poll in progress, start of the world in progress -
-// and reports the plan being executed as a livelock when one of them is older than its limit. The limits are
-// orders of magnitude above anything a healthy run needs (a poll takes microseconds, a world milliseconds to
-// seconds), so machine load cannot trip them.
+// OS thread reports the plan being executed as a livelock when (a) the task poll in progress started more than
+// VERIF_POLL_LIMIT_S (20 s) of wall time ago - a poll takes microseconds - or (b) a world is in progress and for
+// VERIF_WORLD_STALL_S (180 s) of wall time neither a socket event was logged nor simulated time passed, although
+// the runtime is not idle. A world that is merely *slow* (a thorough plan with a dozen multi-MiB flows through
+// one-byte windows on a loaded machine takes minutes) keeps making progress and is never reported as a livelock;
+// after VERIF_WORLD_HARD_LIMIT_S (2 h) it is abandoned and counted, which is not a violation.
 
 use std::sync::atomic::AtomicU64;
 use std::sync::atomic::Ordering;
 
 static POLL_START_MS: AtomicU64 = AtomicU64::new(0);
 static WORLD_START_MS: AtomicU64 = AtomicU64::new(0);
+/// socket events logged + simulated nanoseconds of the world in progress (anything that changes when the system moves)
+static WORLD_PROGRESS: AtomicU64 = AtomicU64::new(0);
 
 fn wall_ms() -> u64 {
     // the kernel's monotonic clock, not the simulated reading `std::time::Instant` gives on a simulation thread
@@ -187,18 +191,35 @@ fn wall_ms() -> u64 {
 /// Start the watchdog thread; `report(kind, seconds)` is called once, from the watchdog thread, and must not return.
 pub fn start_watchdog(report: impl Fn(&str, u64) + Send + 'static) {
     let poll_limit_ms = std::env::var("VERIF_POLL_LIMIT_S").ok().and_then(|s| s.parse::<u64>().ok()).unwrap_or(20) * 1000;
-    let world_limit_ms = std::env::var("VERIF_WORLD_LIMIT_S").ok().and_then(|s| s.parse::<u64>().ok()).unwrap_or(300) * 1000;
+    let stall_limit_ms = std::env::var("VERIF_WORLD_STALL_S").ok().and_then(|s| s.parse::<u64>().ok()).unwrap_or(180) * 1000;
+    let hard_limit_ms = std::env::var("VERIF_WORLD_HARD_LIMIT_S").ok().and_then(|s| s.parse::<u64>().ok()).unwrap_or(7200) * 1000;
     wall_ms();
-    std::thread::spawn(move || loop {
-        std::thread::sleep(std::time::Duration::from_millis(250));
-        let now = wall_ms();
-        let p = POLL_START_MS.load(Ordering::Relaxed);
-        if p != 0 && now.saturating_sub(p) > poll_limit_ms {
-            report("one task poll never returned", (now - p) / 1000);
-        }
-        let w = WORLD_START_MS.load(Ordering::Relaxed);
-        if w != 0 && now.saturating_sub(w) > world_limit_ms {
-            report("one simulated world did not finish", (now - w) / 1000);
+    std::thread::spawn(move || {
+        let (mut seen_world, mut seen_progress, mut changed_at) = (0u64, 0u64, 0u64);
+        loop {
+            std::thread::sleep(std::time::Duration::from_millis(250));
+            let now = wall_ms();
+            let p = POLL_START_MS.load(Ordering::Relaxed);
+            if p != 0 && now.saturating_sub(p) > poll_limit_ms {
+                report("one task poll never returned", (now - p) / 1000);
+            }
+            let w = WORLD_START_MS.load(Ordering::Relaxed);
+            if w == 0 {
+                seen_world = 0;
+                continue;
+            }
+            let progress = WORLD_PROGRESS.load(Ordering::Relaxed);
+            if w != seen_world || progress != seen_progress {
+                seen_world = w;
+                seen_progress = progress;
+                changed_at = now;
+            }
+            if now.saturating_sub(changed_at) > stall_limit_ms {
+                report("one simulated world made no progress (no socket event, no simulated time)", (now - changed_at) / 1000);
+            }
+            if now.saturating_sub(w) > hard_limit_ms {
+                report("slow-world", (now - w) / 1000);
+            }
         }
     });
 }
@@ -242,8 +263,9 @@ where
                 let mut t = t.borrow_mut();
                 POLL_START_MS.store(wall_ms(), Ordering::Relaxed);
                 // the paused clock only moves between polls: this is the reading `std::time::Instant` gives during the poll
-                if let Some(ns) = world::try_with(|w| w.now_ns()) {
+                if let Some((ns, ev)) = world::try_with(|w| (w.now_ns(), w.ev_count)) {
                     crate::clock::set_elapsed(ns);
+                    WORLD_PROGRESS.store(ns.wrapping_add(ev), Ordering::Relaxed);
                 }
                 if let Some(&(ord, node)) = t.nodes.get(&meta.id()) {
                     world::set_current_node(node);
